@@ -301,7 +301,7 @@ def parse_info(state):
             raise InconsistentPreviousParseOffset(
                 last_parse_info_offset,
                 state["previous_parse_offset"],
-                true_parse_offset,
+                true_previous_parse_offset,
             )
     ## End not in spec
 
